@@ -81,6 +81,37 @@ def normalize(sql: str) -> str:
     return " ".join(t.text if t.kind != "id" else t.text for t in tokenize(sql))
 
 
+_SQL_WORDS = {"SELECT", "FROM", "WHERE", "JOIN", "LEFT", "INNER", "OUTER", "CROSS", "ON", "AND", "OR", "NOT", "IN", "IS",
+              "NULL", "AS", "ORDER", "BY", "GROUP", "HAVING", "LIMIT", "UNION", "ALL", "DISTINCT", "EXISTS", "INSERT",
+              "INTO", "VALUES", "UPDATE", "SET", "DELETE", "WITH", "RECURSIVE", "CASE", "WHEN", "THEN", "ELSE", "END",
+              "LIKE", "GLOB", "ESCAPE", "BETWEEN", "ASC", "DESC", "COUNT", "MAX", "MIN", "SUM", "COALESCE", "REPLACE",
+              "IGNORE", "CONFLICT", "DO", "NOTHING", "RETURNING", "INDEXED", "EXCEPT", "INTERSECT", "SUBSTR", "LENGTH"}
+
+
+def match_key(sql: str) -> str:
+    """The text by which a statement is recognised (to pick the row type / facts declared for it): comments and
+    whitespace dropped, keywords in upper case, INNER / AS dropped, qualifiers `t.` of column names dropped.  Used for
+    recognition only: what a statement means is read from its real text."""
+    out = []
+    toks = tokenize(sql)
+    k = 0
+    while k < len(toks):
+        t = toks[k]
+        if t.kind == "id" and k + 2 < len(toks) and toks[k + 1].text == "." and toks[k + 2].kind in ("id", "op") \
+                and (toks[k + 2].kind == "id" or toks[k + 2].text == "*"):
+            k += 2
+            continue
+        if t.kind == "id" and t.up in _SQL_WORDS:
+            if t.up in ("INNER", "AS"):
+                k += 1
+                continue
+            out.append(t.up)
+        else:
+            out.append(t.text)
+        k += 1
+    return " ".join(out)
+
+
 # --------------------------------------------------------------------------- expression AST
 
 KEYWORDS_END = {"FROM", "WHERE", "GROUP", "ORDER", "LIMIT", "UNION", "EXCEPT", "INTERSECT", "THEN", "ELSE",
